@@ -52,15 +52,19 @@ theorem prefix_sibling_distinct {pkg T m sfx : Str} {p : Bool} (hm : '.' ∉ m) 
 example : linkName "p".toList "T".toList false "Get".toList ≠ linkName "p".toList "T".toList false "GetX".toList :=
   prefix_sibling_distinct (by decide) (by decide) (by decide)
 
+/-- a path without characters the linker escapes is its own symbol prefix (`x/pa`, `github.com/a/b`; NOT `y.v2`) -/
+theorem symPrefix_plain_example : symPrefix "github.com/tencent/goom/x/pa".toList = "github.com/tencent/goom/x/pa".toList ∧
+    symPrefix "gopkg.in/yaml.v2".toList = "gopkg.in/yaml%2ev2".toList := by decide
+
 /-- `Struct(inst).ExportMethod(m)` builds exactly the linker's name (typeName + bracket rule + objName), provided the
     type name contains no `*` (true for every identifier; NOT for a value instance of `G[*X]`, see level note) -/
 theorem exportMethod_name_correct (t : Ty) (m : Str) (h : '*' ∉ t.name) :
-    exportMethodName t m = linkName t.pkg t.name t.ptr m := by
+    exportMethodName t m = linkName (symPrefix t.pkg) t.name t.ptr m := by
   simp [exportMethodName, linkName, bracket_typeName t.ptr h]
 
 /-- `Pkg(pkg).ExportStruct("T" | "*T").Method(m)` builds exactly the linker's name (ExportStruct bracket rule) -/
 theorem exportStruct_name_correct (pkg T m : Str) (p : Bool) (h : '*' ∉ T) :
-    exportStructName pkg (typeName T p) m = linkName pkg T p m := by
+    exportStructName pkg (typeName T p) m = linkName (symPrefix pkg) T p m := by
   simp [exportStructName, linkName, bracket_typeName p h]
 
 /-! ## 2. lookup -/
@@ -205,11 +209,11 @@ theorem byname_mock_exact_partial (syms : List Str) (entries : List Entry) (e e'
     (hg : e.shape = []) (hg' : e'.shape = []) (hstar : '*' ∉ e.name) (hmem : e.callSym ∈ syms)
     (hT : '.' ∉ e.name) (hT' : '.' ∉ e'.name) (hm : '.' ∉ e.m) (hm' : '.' ∉ e'.m)
     (hp : e.name.head? ≠ some '(') (hp' : e'.name.head? ≠ some '(')
-    (hdiff : (e'.pkg, e'.name, e'.ptr, e'.m) ≠ (e.pkg, e.name, e.ptr, e.m)) :
+    (hdiff : (symPrefix e'.pkg, e'.name, e'.ptr, e'.m) ≠ (symPrefix e.pkg, e.name, e.ptr, e.m)) :
     let s := (run syms entries BState.init 0 [st]).1
     behavOf syms s.patched e = some 0 ∧ behavOf syms s.patched e' = none := by
-  have hcs : e.callSym = linkName e.pkg e.name e.ptr e.m := by simp [Entry.callSym, hg]
-  have hcs' : e'.callSym = linkName e'.pkg e'.name e'.ptr e'.m := by simp [Entry.callSym, hg']
+  have hcs : e.callSym = linkName (symPrefix e.pkg) e.name e.ptr e.m := by simp [Entry.callSym, hg]
+  have hcs' : e'.callSym = linkName (symPrefix e'.pkg) e'.name e'.ptr e'.m := by simp [Entry.callSym, hg']
   have hn : stepName entries st = some e.callSym := by
     rcases hst with h | h <;> subst h
     · simp [stepName, hcs, exportStruct_name_correct _ _ _ _ hstar]
@@ -225,19 +229,56 @@ theorem byname_mock_exact_partial (syms : List Str) (entries : List Entry) (e e'
     have := step_frame syms entries BState.init 0 st e' inv_init hr hne
     simpa [run, BState.init, behavOf] using this
 
+/-- the exported-method path across packages (ordinary types; answers "no method of another type" for the reflect
+    path where `single_mock_exact` fixes the package): any declared method whose (symbol prefix of the package, type,
+    pointer?, method) differs from the mocked one keeps its original behaviour.  *Partial*: `symPrefix` (the linker's
+    escaping) is not proved injective, so the hypothesis speaks about the escaped package paths. -/
+theorem single_mock_exact_any_pkg_partial (syms : List Str) (entries : List Entry) (e e' : Entry)
+    (he : e ∈ entries) (hx : isExported e.m = true) (hmem : e.callSym ∈ syms)
+    (hu : ∀ a ∈ entries, ∀ b ∈ entries, a.pkg = b.pkg → a.name = b.name → a.m = b.m → a = b)
+    (hg : e.shape = []) (hg' : e'.shape = [])
+    (hT : '.' ∉ e.name) (hT' : '.' ∉ e'.name) (hm : '.' ∉ e.m) (hm' : '.' ∉ e'.m)
+    (hp : e.name.head? ≠ some '(') (hp' : e'.name.head? ≠ some '(')
+    (hdiff : (symPrefix e'.pkg, e'.name, e'.ptr, e'.m) ≠ (symPrefix e.pkg, e.name, e.ptr, e.m)) :
+    let s := (run syms entries BState.init 0 [.structMethod ⟨e.pkg, e.name, e.ptr⟩ e.m]).1
+    behavOf syms s.patched e = some 0 ∧ behavOf syms s.patched e' = none := by
+  have hcs : e.callSym = linkName (symPrefix e.pkg) e.name e.ptr e.m := by simp [Entry.callSym, hg]
+  have hcs' : e'.callSym = linkName (symPrefix e'.pkg) e'.name e'.ptr e'.m := by simp [Entry.callSym, hg']
+  have hn : stepName entries (.structMethod ⟨e.pkg, e.name, e.ptr⟩ e.m) = some e.callSym := by
+    simp [stepName, resolveSM_named entries e he hx hu]
+  refine ⟨?_, ?_⟩
+  · simpa [run] using step_hit syms entries BState.init 0 _ e inv_init hn hmem
+  · have hne : stepName entries (.structMethod ⟨e.pkg, e.name, e.ptr⟩ e.m) ≠ some e'.callSym := by
+      rw [hn, hcs, hcs']
+      intro hc
+      have := name_injective hT hT' hm hm' hp hp' (Option.some.inj hc)
+      exact hdiff (by rw [this.1, this.2.1, this.2.2.1, this.2.2.2])
+    have := step_frame syms entries BState.init 0 _ e' inv_init rfl hne
+    simpa [run, BState.init, behavOf] using this
+
 /-! ## 5. receiver -/
 
-/-- **the receiver is argument 0, for every instance**: whenever `e` is mocked by callback `k`, a call on *any*
-    receiver value with *any* arguments enters `k` with that receiver first and the arguments behind it (behind the
-    dictionary when the patched code is a shape body) — and an unmocked method runs its own body on them -/
-theorem receiver_is_arg0 {R A : Type} (syms : List Str) (s : BState) (e : Entry) (k : Nat) (dict : A)
-    (h : behavOf syms s.patched e = some k) (recv : R) (args : List A) :
-    callObs syms s e dict recv args = .mock k recv (if e.shape.isEmpty then args else dict :: args) := by
-  simp [callObs, h]
+/-- the adapter of `adaptToShapeFunc` removes exactly the word at the dictionary position, whatever stands before and
+    behind it (functions: `pre = []`; methods: `pre = [receiver]`) -/
+theorem adapt_drops_dictionary {A : Type} (pre post : List A) (d : A) :
+    adapt pre.length (pre ++ d :: post) = pre ++ post := by
+  simp [adapt]
 
-theorem unmocked_runs_original {R A : Type} (syms : List Str) (s : BState) (e : Entry) (dict : A)
-    (h : behavOf syms s.patched e = none) (recv : R) (args : List A) :
-    callObs syms s e dict recv args = .orig recv args := by
+/-- **receiver and arguments arrive exactly, for every instance — also for methods of instantiated generic types**:
+    whenever `e` is mocked by callback `k`, a call on *any* receiver value with *any* arguments (and any dictionary, for a
+    shape body) calls `k` with that receiver first and exactly those arguments behind it.  (Before fix 79126f8 the shape
+    case delivered `recv :: dict :: args`.) -/
+theorem receiver_and_args_exact {A : Type} (syms : List Str) (s : BState) (e : Entry) (k : Nat) (dict : A)
+    (h : behavOf syms s.patched e = some k) (recv : A) (args : List A) :
+    callObs syms s e dict recv args = .mock k (recv :: args) := by
+  simp only [callObs, h, delivered, entryArgs]
+  split
+  · rfl
+  · exact congrArg _ (adapt_drops_dictionary [recv] args dict)
+
+theorem unmocked_runs_original {A : Type} (syms : List Str) (s : BState) (e : Entry) (dict : A)
+    (h : behavOf syms s.patched e = none) (recv : A) (args : List A) :
+    callObs syms s e dict recv args = .orig (recv :: args) := by
   simp [callObs, h]
 
 /-! ## 6. kept handles: realistic multi-step use (`Model/MethodH.lean`, the model the driver runs)
@@ -304,6 +345,58 @@ theorem oneshot_refines (syms : List Str) (entries : List Entry) (steps : List S
     · intro key id hk; simp [MethodH.HState.init, MethodH.aget] at hk
   exact C06HL.run_sim syms entries steps MethodH.HState.init 0 hr h0
 
+/-! ## 6b. guards created first, applied later (`Model/MethodG.lean`, the patch package used directly) -/
+
+/-- **what `Apply` installs is fixed at creation**: in every history
+    `pre ++ [g_h := InstanceMethod(T, m, cb)] ++ mid ++ [g_h.Apply()]` — whatever other guards are created, applied or
+    unpatched in `mid`, as long as `h` itself is not re-created — the method named at creation enters the callback given
+    at creation (number `pre.length`), not the one of a guard created later. -/
+theorem guard_installs_creation_callback (syms : List Str) (entries : List Entry) (pre mid : List MethodG.GStep)
+    (h : Nat) (t : Ty) (m : Str) (e : Entry)
+    (hr : resolveSM entries t m = .ok e.callSym) (hmem : e.callSym ∈ syms)
+    (hmid : ∀ st ∈ mid, st.binds h = false) :
+    behavOf syms (MethodG.grun syms entries MethodG.GState.init 0
+      (pre ++ ([MethodG.GStep.gnew h t m] ++ (mid ++ [MethodG.GStep.gapply h])))).1.patched e = some pre.length := by
+  obtain ⟨i, hi⟩ := symIndex_of_mem syms e.callSym hmem
+  have hg := symIndex_get syms e.callSym i hi
+  rw [C06GL.grun_append, C06GL.grun_append, C06GL.grun_append]
+  generalize (MethodG.grun syms entries MethodG.GState.init 0 pre).1 = s1
+  simp only [Nat.zero_add, List.length_singleton]
+  have h1 : MethodH.aget (MethodG.grun syms entries s1 pre.length [MethodG.GStep.gnew h t m]).1.guards h
+      = some ⟨e.callSym, pre.length, false⟩ := by
+    simp [MethodG.grun, MethodG.gstep, hr, hi, MethodH.aget]
+  generalize (MethodG.grun syms entries s1 pre.length [MethodG.GStep.gnew h t m]).1 = s2 at h1 ⊢
+  obtain ⟨g', hg', hn, hk⟩ := C06GL.grun_keeps syms entries mid s2 (pre.length + 1) h _ hmid h1
+  generalize (MethodG.grun syms entries s2 (pre.length + 1) mid).1 = s3 at hg' ⊢
+  simp only [] at hn hk
+  simp only [MethodG.grun, MethodG.gstep, hg', hn, hi, behavOf, hg, hk, if_true]
+
+/-! ## 6c. behind the wrapper of a generic method (`Model/InnerFn.lean`, `bytecode.GetInnerFunc`) -/
+
+/-- **the code patched for a generic method is the target of the wrapper's first CALL that leaves the wrapper**, forward
+    or backward, whatever (non-call, non-padding) instructions precede it and whatever follows it -/
+theorem inner_is_first_call (pre rest : List InnerFn.Ins) (rel : Int) (hp : pre.all InnerFn.isFill = true)
+    (h : rel ≥ 0 ∨ (InnerFn.codeLen pre : Int) + rel < 0) :
+    InnerFn.inner (pre ++ InnerFn.Ins.call rel :: rest) = some ((InnerFn.codeLen pre : Int) + rel + 5) := by
+  unfold InnerFn.inner
+  rw [C06IL.go_fills pre hp]
+  simp only [Nat.zero_add, InnerFn.go, Bool.false_eq_true, if_false]
+  rcases h with h | h
+  · simp [h]
+  · have : ¬ rel ≥ 0 := by omega
+    simp [this, h]
+
+/-- a wrapper that reaches its padding (or the next function) without such a CALL is patched itself -/
+theorem inner_none_without_call (pre rest : List InnerFn.Ins) (hp : pre.all InnerFn.isFill = true) :
+    InnerFn.inner (pre ++ InnerFn.Ins.int3 :: InnerFn.Ins.fill 1 :: rest) = none ∧
+    InnerFn.inner (pre ++ InnerFn.Ins.prologue :: rest) = none := by
+  unfold InnerFn.inner
+  rw [C06IL.go_fills pre hp, C06IL.go_fills pre hp]
+  simp [InnerFn.go]
+
+example : InnerFn.inner [.fill 4, .fill 7, .call (-300), .fill 3, .call 64] = some (-284) ∧
+    InnerFn.inner [.fill 4, .call (-3), .fill 7, .call 64, .int3] = some (85) := by decide
+
 /-! ## 7. the hypotheses are satisfiable / the statements are not vacuous -/
 
 section Examples
@@ -314,6 +407,7 @@ def eSet : Entry := ⟨pa, "T".toList, true, "set".toList, [], 1⟩
 def eT2 : Entry := ⟨pa, "T2".toList, false, "Get".toList, [], 0⟩
 def eGi : Entry := ⟨pa, "G[int]".toList, true, "Get".toList, "G[go.shape.int]".toList, 0⟩
 def eGs : Entry := ⟨pa, "G[string]".toList, true, "Get".toList, "G[go.shape.string]".toList, 0⟩
+def eGiX : Entry := ⟨pa, "G[int]".toList, true, "GetX".toList, "G[go.shape.int]".toList, 1⟩
 def exEntries : List Entry := [eGet, eGetX, eSet, eT2, eGi, eGs]
 def exSyms : List Str := exEntries.map Entry.callSym ++ ["x/pa.(*G[int]).Get".toList]
 
@@ -360,6 +454,29 @@ example :
     MethodH.behavOf exSyms (MethodH.run exSyms exEntries MethodH.HState.init 0
       [.look 0 (.structMethod ⟨pa, "T".toList, false⟩ "Get".toList), .ret 0 6, .cancel 0, .ret 0 7, .reset, .apply 0]).1.patched eT2 = none :=
   handle_isolation exSyms exEntries eT2 _ [eGet.callSym] (by decide) (by decide)
+/-- two guards created, then both applied (round-4 seed shape): each method gets its own callback -/
+example :
+    let s := (MethodG.grun exSyms exEntries MethodG.GState.init 0
+      [.gnew 0 ⟨pa, "T".toList, false⟩ "Get".toList, .gnew 1 ⟨pa, "T2".toList, false⟩ "Get".toList, .gapply 0, .gapply 1]).1
+    exEntries.map (behavOf exSyms s.patched) = [some 0, none, none, some 1, none, none] := by decide
+
+/-- the hypotheses of `guard_installs_creation_callback` hold with a guard for `T2.Get` created and applied in between -/
+example : behavOf exSyms (MethodG.grun exSyms exEntries MethodG.GState.init 0
+      ([] ++ ([MethodG.GStep.gnew 0 ⟨pa, "T".toList, false⟩ "Get".toList] ++
+        ([.gnew 1 ⟨pa, "T2".toList, false⟩ "Get".toList, .gapply 1] ++ [MethodG.GStep.gapply 0])))).1.patched eGet = some 0 :=
+  guard_installs_creation_callback exSyms exEntries [] _ 0 _ _ eGet
+    (resolveSM_named exEntries eGet (by decide) (by decide) (by decide)) (by decide) (by decide)
+/-- hypotheses of `single_mock_exact_any_pkg_partial`: `x/pa.T.Get` mocked, `y.v2.T.Get` (another package, escaped prefix) untouched -/
+example :
+    let eOther : Entry := ⟨"m/y.v2".toList, "T".toList, false, "Get".toList, [], 0⟩
+    behavOf (exSyms ++ [eOther.callSym]) (run (exSyms ++ [eOther.callSym]) (exEntries ++ [eOther]) BState.init 0
+      [.structMethod ⟨pa, "T".toList, false⟩ "Get".toList]).1.patched eOther = none :=
+  (single_mock_exact_any_pkg_partial _ _ eGet _ (by decide) (by decide) (by decide) (by decide) rfl rfl (by decide) (by decide)
+    (by decide) (by decide) (by decide) (by decide) (by decide)).2
+/-- a method of an instantiated generic type: the shape body is entered with (receiver, dictionary, arguments), the
+    callback is called with (receiver, arguments) -/
+example : delivered eGiX 'D' 'R' ['a', 'b'] = ['R', 'a', 'b'] ∧ entryArgs eGiX 'D' 'R' ['a', 'b'] = ['R', 'D', 'a', 'b'] := by
+  decide
 end Examples
 
 end C06
